@@ -212,6 +212,22 @@ def _condition(tp, w, c, name):
         dl = tp.utils.PointsDataLoader((inp, out), batch_size=c["batch"], shuffle=False)
         return tp.conditions.DataCondition(model, dl, norm=c["norm"], root=c.get("root", 1.0),
                                            use_full_dataset=c.get("full", False), name=name, weight=wt)
+    if kind == "hpcm":
+        # hybrid condition: |state(x) - y - correction(state(x), x)| on data; the correction network is reached through the
+        # user's correction function (and the condition's module_corr argument)
+        from torchphysics.problem.spaces import Points
+        corr = w.models[c["corr_model"]]
+        n = c["n_data"]
+        g = torch.Generator().manual_seed(c["data_seed"])
+        xt = torch.rand((n, 2), generator=g)
+        inp = Points(xt, w.XT)
+        out = Points(_target(xt[:, :1], xt[:, 1:]), w.U)
+        dl = tp.utils.PointsDataLoader((inp, out), batch_size=c["batch"], shuffle=False)
+
+        def correction_fn(u, x, t):
+            return corr(Points(torch.cat([x, t], dim=-1), w.XT))
+        return tp.conditions.HPCMCondition(model, corr, dl, correction_fn, norm=c["norm"], root=c.get("root", 1.0),
+                                           use_full_dataset=c.get("full", False), name=name, weight=wt)
     if kind == "param":
         p = w.params[c["param"]]
         pname = w.spec["params"][c["param"]]["name"]
